@@ -7,6 +7,7 @@ import Mathlib.Tactic.Linarith
 import Mathlib.Tactic.Ring
 import Mathlib.Tactic.FieldSimp
 import Mathlib.Tactic.NormNum
+import Std.Data.String.ToNat
 namespace CnvVerif.Vcf
 open CnvVerif
 
@@ -588,3 +589,752 @@ theorem boostRow_formula (r : VRow) (g : Geno) (t n : Rat) (hn : r.n = some g)
     boostRow r = ofOpt (tumorBoost t n) := by
   simp [boostRow, hn, ht, hg, Freq.toOpt]
 
+/-! ## sample choice -/
+
+theorem count_eq_one_of_nodup (l : List String) (h : l.Nodup) (x : String) (hx : x ∈ l) : l.count x = 1 := by
+  induction l with
+  | nil => simp at hx
+  | cons a t ih =>
+    have hn := List.nodup_cons.mp h
+    by_cases e : a = x
+    · subst e
+      have : List.count a t = 0 := List.count_eq_zero.mpr hn.1
+      simp [this]
+    · rcases List.mem_cons.mp hx with h1 | h1
+      · exact absurd h1.symm e
+      · have : (a == x) = false := by simpa using e
+        rw [List.count_cons, ih hn.2 h1, this]
+        simp
+
+theorem truthy_some {o : Option String} {x : String} (h : truthy o = some x) : o = some x := by
+  cases o with
+  | none => simp [truthy] at h
+  | some s =>
+    simp only [truthy] at h
+    by_cases he : s.isEmpty
+    · simp [he] at h
+    · simp only [he, Bool.false_eq_true, if_false, Option.some.injEq] at h
+      rw [h]
+
+/-- every declared name is a sample column -/
+def PedsValid (samples : List String) (peds : List (String × String)) : Prop :=
+  ∀ p ∈ peds, p.1 ∈ samples ∧ p.2 ∈ samples
+
+theorem names_ok (samples : List String) (hnd : samples.Nodup) (names : List String)
+    (h : ∀ x ∈ names, x ∈ samples) :
+    (names.all (fun nm => samples.count nm == 1)) = true := by
+  apply List.all_eq_true.mpr
+  intro x hx
+  simp [count_eq_one_of_nodup samples hnd x (h x hx)]
+
+/-- the last steps of `_choose_samples`, from the pairs that survived the `sample_id` filter -/
+def finishChoice (samples : List String) (sid : Option String)
+    (pairs1 : List (Option String × Option String)) : Except VErr (String × Option String) :=
+  if pairs1.isEmpty && (truthy sid).isNone then .error .indexError else
+  let pairs := if pairs1.isEmpty then [(sid, (none : Option String))] else pairs1
+  if !((pairNames pairs).all (fun nm => samples.count nm == 1)) then .error .indexError else
+  match pairs.head? with
+  | some (some s, n) => .ok (s, n)
+  | _ => .error .indexError
+
+theorem chooseNames_eq (samples : List String) (peds : List (String × String)) (sid nid : Option String)
+    (hs : selOk samples sid = true) (hn : selOk samples nid = true) :
+    chooseNames samples peds sid nid =
+      finishChoice samples sid (match truthy sid with
+        | some s => (candidatePairs samples peds nid).filter (fun p => p.1 == some s)
+        | none => candidatePairs samples peds nid) := by
+  unfold chooseNames finishChoice
+  simp only [hs, hn, Bool.and_self, Bool.not_true, Bool.false_eq_true, if_false]
+  rfl
+
+theorem finishChoice_cons (samples : List String) (hnd : samples.Nodup) (sid : Option String)
+    (s : String) (n : Option String) (rest : List (Option String × Option String))
+    (hnames : ∀ x ∈ pairNames ((some s, n) :: rest), x ∈ samples) :
+    finishChoice samples sid ((some s, n) :: rest) = .ok (s, n) := by
+  unfold finishChoice
+  simp only [List.isEmpty_cons, Bool.false_and, Bool.false_eq_true, if_false,
+    names_ok samples hnd _ hnames, Bool.not_true, List.head?_cons]
+
+theorem finishChoice_nil_some (samples : List String) (hnd : samples.Nodup) (x : String)
+    (hx : x ∈ samples) (hne : truthy (some x) = some x) :
+    finishChoice samples (some x) [] = .ok (x, none) := by
+  unfold finishChoice
+  have hnames : ∀ y ∈ pairNames [(some x, (none : Option String))], y ∈ samples := by
+    intro y hy
+    simp [pairNames] at hy
+    rw [hy]; exact hx
+  simp only [List.isEmpty_nil, Bool.true_and, hne, Option.isNone_some, Bool.false_eq_true, if_false,
+    if_true, names_ok samples hnd _ hnames, Bool.not_true, List.head?_cons]
+
+theorem finishChoice_nil_none (samples : List String) (sid : Option String) (h : truthy sid = none) :
+    finishChoice samples sid [] = .error .indexError := by
+  unfold finishChoice
+  simp [h]
+
+theorem selOk_mem {samples : List String} {o : Option String} {x : String}
+    (h : selOk samples o = true) (ht : truthy o = some x) : x ∈ samples := by
+  unfold selOk at h
+  rw [ht] at h
+  simpa using h
+
+theorem find?_some_filter {α} (p : α → Bool) (l : List α) (q : α) (h : l.find? p = some q) :
+    ∃ rest, l.filter p = q :: rest := by
+  induction l with
+  | nil => simp at h
+  | cons a t ih =>
+    by_cases hpa : p a = true
+    · simp only [List.find?_cons, hpa, Option.some.injEq] at h
+      subst h
+      exact ⟨t.filter p, by simp [hpa]⟩
+    · have hpa' : p a = false := by simpa using hpa
+      simp only [List.find?_cons, hpa'] at h
+      obtain ⟨rest, hr⟩ := ih h
+      exact ⟨rest, by simp [hpa', hr]⟩
+
+theorem find?_none_filter {α} (p : α → Bool) (l : List α) (h : l.find? p = none) : l.filter p = [] := by
+  apply List.filter_eq_nil_iff.mpr
+  intro a ha hpa
+  have := List.find?_eq_none.mp h a ha
+  exact this hpa
+
+theorem filter_beq_of_mem (l : List String) (x : String) (hx : x ∈ l) :
+    ∃ rest, l.filter (fun o => o == x) = x :: rest := by
+  induction l with
+  | nil => simp at hx
+  | cons a t ih =>
+    by_cases e : a = x
+    · subst e
+      exact ⟨t.filter (fun o => o == a), by simp⟩
+    · rcases List.mem_cons.mp hx with h1 | h1
+      · exact absurd h1.symm e
+      · obtain ⟨rest, hr⟩ := ih h1
+        have : (a == x) = false := by simpa using e
+        exact ⟨rest, by simp [this, hr]⟩
+
+/-- `_choose_samples` follows the documented rules: on a header whose sample names are distinct and
+    whose PEDIGREE tags name sample columns, the pair it returns is the one `specPair` describes,
+    and it refuses exactly when the rules leave no tumour sample -/
+theorem chooseNames_spec (samples : List String) (peds : List (String × String)) (sid nid : Option String)
+    (hnd : samples.Nodup) (hs : selOk samples sid = true) (hn : selOk samples nid = true)
+    (hp : PedsValid samples peds) :
+    chooseNames samples peds sid nid =
+      match specPair samples peds (truthy sid) (truthy nid) with
+      | some p => .ok p
+      | none => .error .indexError := by
+  rw [chooseNames_eq samples peds sid nid hs hn]
+  cases peds with
+  | cons p ps =>
+    have hcp : candidatePairs samples (p :: ps) nid = (p :: ps).map (fun q => (some q.1, some q.2)) := by
+      simp [candidatePairs]
+    rw [hcp]
+    cases hts : truthy sid with
+    | none =>
+      simp only [specPair, List.isEmpty_cons, Bool.not_false, if_true, List.head?_cons, Option.map_some,
+        List.map_cons]
+      apply finishChoice_cons samples hnd
+      intro x hx
+      simp only [pairNames, List.flatMap_cons, Option.toList_some, List.cons_append, List.nil_append,
+        List.mem_cons, List.mem_flatMap, List.mem_map] at hx
+      rcases hx with rfl | rfl | ⟨pr, ⟨q, hq, rfl⟩, hx⟩
+      · exact (hp p (by simp)).1
+      · exact (hp p (by simp)).2
+      · simp only [Option.toList_some, List.cons_append, List.nil_append, List.mem_cons,
+          List.not_mem_nil, or_false] at hx
+        rcases hx with rfl | rfl
+        · exact (hp q (List.mem_cons_of_mem _ hq)).1
+        · exact (hp q (List.mem_cons_of_mem _ hq)).2
+    | some x =>
+      have hsx : sid = some x := truthy_some hts
+      have hxm : x ∈ samples := selOk_mem hs hts
+      have hf : ((p :: ps).map (fun q => ((some q.1 : Option String), (some q.2 : Option String)))).filter
+            (fun pr => pr.1 == some x) =
+          ((p :: ps).filter (fun q => q.1 == x)).map (fun q => (some q.1, some q.2)) := by
+        rw [List.filter_map]
+        congr 1
+      simp only [hf]
+      simp only [specPair, List.isEmpty_cons, Bool.not_false, if_true]
+      cases hfind : (p :: ps).find? (fun q => q.1 == x) with
+      | none =>
+        rw [find?_none_filter _ _ hfind, hsx]
+        simp only [List.map_nil]
+        rw [hsx] at hts
+        exact finishChoice_nil_some samples hnd x hxm hts
+      | some q =>
+        obtain ⟨rest, hr⟩ := find?_some_filter _ _ q hfind
+        rw [hr]
+        simp only [List.map_cons]
+        apply finishChoice_cons samples hnd
+        intro y hy
+        have hsub : ∀ z ∈ q :: rest, z ∈ p :: ps := by
+          intro z hz
+          rw [← hr] at hz
+          exact (List.mem_filter.mp hz).1
+        simp only [pairNames, List.flatMap_cons, Option.toList_some, List.cons_append, List.nil_append,
+          List.mem_cons, List.mem_flatMap, List.mem_map] at hy
+        rcases hy with rfl | rfl | ⟨pr, ⟨z, hz, rfl⟩, hy⟩
+        · exact (hp q (hsub q (by simp))).1
+        · exact (hp q (hsub q (by simp))).2
+        · simp only [Option.toList_some, List.cons_append, List.nil_append, List.mem_cons,
+            List.not_mem_nil, or_false] at hy
+          rcases hy with rfl | rfl
+          · exact (hp z (hsub z (List.mem_cons_of_mem _ hz))).1
+          · exact (hp z (hsub z (List.mem_cons_of_mem _ hz))).2
+  | nil =>
+    cases htn : truthy nid with
+    | some y =>
+      have hym : y ∈ samples := selOk_mem hn htn
+      have hcp : candidatePairs samples [] nid =
+          (samples.filter (fun s => s != y)).map (fun o => (some o, some y)) := by
+        simp [candidatePairs, htn]
+      rw [hcp]
+      cases hts : truthy sid with
+      | none =>
+        simp only [specPair, List.isEmpty_nil, Bool.not_true, Bool.false_eq_true, if_false]
+        cases hfind : samples.find? (fun o => o != y) with
+        | none =>
+          rw [find?_none_filter _ _ hfind]
+          simp only [List.map_nil, Option.map_none]
+          exact finishChoice_nil_none samples sid hts
+        | some o =>
+          obtain ⟨rest, hr⟩ := find?_some_filter _ _ o hfind
+          rw [hr]
+          simp only [List.map_cons, Option.map_some]
+          apply finishChoice_cons samples hnd
+          intro z hz
+          have hsub : ∀ w ∈ o :: rest, w ∈ samples := by
+            intro w hw
+            rw [← hr] at hw
+            exact (List.mem_filter.mp hw).1
+          simp only [pairNames, List.flatMap_cons, Option.toList_some, List.cons_append, List.nil_append,
+            List.mem_cons, List.mem_flatMap, List.mem_map] at hz
+          rcases hz with rfl | rfl | ⟨pr, ⟨w, hw, rfl⟩, hz⟩
+          · exact hsub _ (by simp)
+          · exact hym
+          · simp only [Option.toList_some, List.cons_append, List.nil_append, List.mem_cons,
+              List.not_mem_nil, or_false] at hz
+            rcases hz with rfl | rfl
+            · exact hsub _ (List.mem_cons_of_mem _ hw)
+            · exact hym
+      | some x =>
+        have hsx : sid = some x := truthy_some hts
+        have hxm : x ∈ samples := selOk_mem hs hts
+        have hf : ((samples.filter (fun s => s != y)).map
+              (fun o => ((some o : Option String), (some y : Option String)))).filter (fun pr => pr.1 == some x) =
+            ((samples.filter (fun s => s != y)).filter (fun o => o == x)).map (fun o => (some o, some y)) := by
+          rw [List.filter_map]
+          congr 1
+        simp only [hf]
+        simp only [specPair, List.isEmpty_nil, Bool.not_true, Bool.false_eq_true, if_false]
+        by_cases hxy : x = y
+        · subst hxy
+          have he : (samples.filter (fun s => s != x)).filter (fun o => o == x) = [] := by
+            apply List.filter_eq_nil_iff.mpr
+            intro a ha hax
+            have := (List.mem_filter.mp ha).2
+            simp only [beq_iff_eq] at hax
+            subst hax
+            simp at this
+          rw [he, hsx]
+          simp only [List.map_nil, bne_self_eq_false, Bool.false_eq_true, if_false]
+          rw [hsx] at hts
+          exact finishChoice_nil_some samples hnd x hxm hts
+        · have hmem : x ∈ samples.filter (fun s => s != y) :=
+            List.mem_filter.mpr ⟨hxm, by simpa using hxy⟩
+          obtain ⟨rest, hr⟩ := filter_beq_of_mem _ x hmem
+          rw [hr]
+          have hne : (x != y) = true := by simpa using hxy
+          simp only [List.map_cons, hne, if_true]
+          apply finishChoice_cons samples hnd
+          intro z hz
+          have hall : ∀ w ∈ x :: rest, w = x := by
+            intro w hw
+            rw [← hr] at hw
+            simpa using (List.mem_filter.mp hw).2
+          simp only [pairNames, List.flatMap_cons, Option.toList_some, List.cons_append, List.nil_append,
+            List.mem_cons, List.mem_flatMap, List.mem_map] at hz
+          rcases hz with rfl | rfl | ⟨pr, ⟨w, hw, rfl⟩, hz⟩
+          · exact hxm
+          · exact hym
+          · simp only [Option.toList_some, List.cons_append, List.nil_append, List.mem_cons,
+              List.not_mem_nil, or_false] at hz
+            rcases hz with rfl | rfl
+            · rw [hall _ (List.mem_cons_of_mem _ hw)]; exact hxm
+            · exact hym
+    | none =>
+      have hcp : candidatePairs samples [] nid = samples.map (fun s => (some s, none)) := by
+        simp [candidatePairs, htn]
+      rw [hcp]
+      cases hts : truthy sid with
+      | none =>
+        simp only [specPair, List.isEmpty_nil, Bool.not_true, Bool.false_eq_true, if_false]
+        cases samples with
+        | nil =>
+          simp only [List.map_nil, List.head?_nil, Option.map_none]
+          exact finishChoice_nil_none [] sid hts
+        | cons a t =>
+          simp only [List.map_cons, List.head?_cons, Option.map_some]
+          apply finishChoice_cons (a :: t) hnd
+          intro z hz
+          simp only [pairNames, List.flatMap_cons, Option.toList_some, Option.toList_none, List.append_nil,
+            List.cons_append, List.nil_append, List.mem_cons, List.mem_flatMap, List.mem_map] at hz
+          rcases hz with rfl | ⟨pr, ⟨w, hw, rfl⟩, hz⟩
+          · simp
+          · simp only [Option.toList_some, Option.toList_none, List.append_nil, List.mem_cons,
+              List.not_mem_nil, or_false] at hz
+            rw [hz]; exact List.mem_cons_of_mem _ hw
+      | some x =>
+        have hsx : sid = some x := truthy_some hts
+        have hxm : x ∈ samples := selOk_mem hs hts
+        have hf : (samples.map (fun s => ((some s : Option String), (none : Option String)))).filter
+              (fun pr => pr.1 == some x) =
+            (samples.filter (fun o => o == x)).map (fun s => (some s, none)) := by
+          rw [List.filter_map]
+          congr 1
+        simp only [hf]
+        simp only [specPair, List.isEmpty_nil, Bool.not_true, Bool.false_eq_true, if_false]
+        obtain ⟨rest, hr⟩ := filter_beq_of_mem _ x hxm
+        rw [hr]
+        simp only [List.map_cons]
+        apply finishChoice_cons samples hnd
+        intro z hz
+        have hall : ∀ w ∈ x :: rest, w = x := by
+          intro w hw
+          rw [← hr] at hw
+          simpa using (List.mem_filter.mp hw).2
+        simp only [pairNames, List.flatMap_cons, Option.toList_some, Option.toList_none, List.append_nil,
+          List.cons_append, List.nil_append, List.mem_cons, List.mem_flatMap, List.mem_map] at hz
+        rcases hz with rfl | ⟨pr, ⟨w, hw, rfl⟩, hz⟩
+        · exact hxm
+        · simp only [Option.toList_some, Option.toList_none, List.append_nil, List.mem_cons,
+            List.not_mem_nil, or_false] at hz
+          rw [hz, hall _ (List.mem_cons_of_mem _ hw)]; exact hxm
+
+/-! ## baf_by_ranges -/
+
+/-- a table with each chromosome's rows brought together, chromosomes in order of first appearance:
+    the order in which `iter_slices` / `into_ranges` hand out their results -/
+def regroup (t : Table) : Table := (groupByChrom t).flatMap (fun g => g.2)
+
+theorem eraseDups_singleton_mem (l : List String) (c : String) (h : l.eraseDups = [c]) :
+    ∀ x ∈ l, x = c := by
+  intro x hx
+  have : x ∈ l.eraseDups := List.mem_eraseDups.mpr hx
+  rw [h] at this
+  simpa using this
+
+theorem filter_chrom_self (t : Table) (c : String) (h : ∀ r ∈ t, r.chrom = c) :
+    t.filter (fun r => r.chrom == c) = t := by
+  apply List.filter_eq_self.mpr
+  intro r hr
+  simp [h r hr]
+
+theorem idxSelect_nil (qs qe : Option Int) (inner : Bool) : idxSelect [] qs qe inner = [] := by
+  simp [idxSelect]
+
+theorem length_one {α} (l : List α) (h : l.length = 1) : ∃ c, l = [c] := by
+  match l, h with
+  | [c], _ => exact ⟨c, rfl⟩
+
+theorem flatMap_filterMap_congr {α β γ} (L : List α) (g : α → Option β) (f : β → List γ)
+    (h : α → List γ) (H : ∀ x ∈ L, (match g x with | some y => f y | none => []) = h x) :
+    (L.filterMap g).flatMap f = L.flatMap h := by
+  induction L with
+  | nil => rfl
+  | cons a t ih =>
+    have ih' := ih (fun x hx => H x (List.mem_cons_of_mem _ hx))
+    have ha := H a (by simp)
+    rw [List.filterMap_cons, List.flatMap_cons]
+    cases hg : g a with
+    | none =>
+      rw [hg] at ha
+      simp only [] at ha ⊢
+      rw [ih', ← ha]
+      simp
+    | some y =>
+      rw [hg] at ha
+      simp only [] at ha ⊢
+      rw [List.flatMap_cons, ih', ha]
+
+/-- `iter_slices(src, dest, "outer", keep_empty=True)`: one selection per `dest` row, each taken
+    from the `src` rows of that row's chromosome, handed out chromosome by chromosome -/
+theorem iterSlices_outer (src dest : Table) :
+    iterSlices src dest .outer true =
+      (regroup dest).map (fun b =>
+        idxSelect (src.filter (fun r => r.chrom == b.chrom)) (some b.s) (some b.e) false) := by
+  have hmode : (Mode.outer == Mode.inner) = false := by decide
+  unfold iterSlices bySharedChroms
+  simp only [hmode, Bool.true_or, List.filter_true]
+  split
+  · rename_i hc
+    simp only [Bool.and_eq_true, beq_iff_eq] at hc
+    obtain ⟨⟨h1, h2⟩, h3⟩ := hc
+    obtain ⟨c, hc⟩ := length_one _ h1
+    have hdest : ∀ r ∈ dest, r.chrom = c := by
+      intro r hr
+      have hc' : (dest.map (fun r : Row => r.chrom)).eraseDups = [c] := hc
+      exact eraseDups_singleton_mem _ c hc' r.chrom (List.mem_map.mpr ⟨r, hr, rfl⟩)
+    have hsrc : ∀ r ∈ src, r.chrom = c := by
+      intro r hr
+      rw [hc] at h3
+      have hc' : (src.map (fun r : Row => r.chrom)).eraseDups = [c] := h3.symm
+      exact eraseDups_singleton_mem _ c hc' r.chrom (List.mem_map.mpr ⟨r, hr, rfl⟩)
+    have hre : regroup dest = dest := by
+      unfold regroup groupByChrom
+      unfold chromsInOrder at hc ⊢
+      rw [hc]
+      simp [filter_chrom_self dest c hdest]
+    rw [hre]
+    simp only [List.flatMap_cons, List.flatMap_nil, List.append_nil]
+    apply List.map_congr_left
+    intro b hb
+    rw [hdest b hb, filter_chrom_self src c hsrc]
+  · unfold regroup
+    rw [List.map_flatMap]
+    unfold groupByChrom
+    apply flatMap_filterMap_congr
+    intro x hx
+    obtain ⟨c, _, rfl⟩ := List.mem_map.mp hx
+    have hb : ∀ b ∈ dest.filter (fun r => r.chrom == c), b.chrom = c := by
+      intro b hb
+      simpa using (List.mem_filter.mp hb).2
+    by_cases he : (src.filter (fun r => r.chrom == c)).isEmpty = true
+    · have he' : src.filter (fun r => r.chrom == c) = [] := by simpa using he
+      simp only [he, Bool.not_true, Bool.false_eq_true, if_false, if_true]
+      apply List.map_congr_left
+      intro b hb'
+      rw [hb b hb', he', idxSelect_nil]
+    · have he2 : (src.filter (fun r => r.chrom == c)).isEmpty = false := by simpa using he
+      simp only [he2, Bool.not_false, if_true]
+      apply List.map_congr_left
+      intro b hb'
+      rw [hb b hb']
+
+/-- a variant table as every `tabio.read` returns it: in cnvkit's order, rows of positive length
+    at non-negative coordinates -/
+def WFRows (rows : List VRow) : Prop := SortedV rows ∧ ∀ r ∈ rows, 0 ≤ r.s ∧ r.s < r.e
+
+theorem chromKeyLt_irrefl (a : Nat × String) : chromKeyLt a a = false := by
+  cases h : chromKeyLt a a with
+  | false => rfl
+  | true =>
+    rw [chromKeyLt_iff] at h
+    rcases h with h | ⟨_, h⟩
+    · omega
+    · exact absurd h (String.lt_irrefl _)
+
+theorem keyLe_same_chrom {a b : VRow} (h : keyLe a b = true) (hc : a.chrom = b.chrom) : a.s ≤ b.s := by
+  rw [keyLe_iff, hc] at h
+  rcases h with h | ⟨_, h⟩
+  · rw [chromKeyLt_irrefl] at h
+    exact absurd h (by simp)
+  · omega
+
+theorem WFRows.sublist {rows sub : List VRow} (h : WFRows rows) (hs : sub.Sublist rows) : WFRows sub :=
+  ⟨List.Pairwise.sublist hs h.1, fun r hr => h.2 r (hs.subset hr)⟩
+
+theorem WFRows.heterozygous {rows : List VRow} (h : WFRows rows) : WFRows (heterozygous rows) := by
+  unfold Vcf.heterozygous
+  split
+  · exact h.sublist List.filter_sublist
+  · exact h
+
+/-- the tagged rows of one chromosome form a well-formed C07 table -/
+theorem wf_tagged (H : List VRow) (h : WFRows H) (c : String) :
+    WFTable ((H.zipIdx.map tagRow).filter (fun r => r.chrom == c)) := by
+  rw [List.filter_map]
+  constructor
+  · show List.Pairwise _ _
+    rw [List.pairwise_map]
+    have hz : List.Pairwise (fun p q : VRow × Nat => keyLe p.1 q.1 = true) H.zipIdx := by
+      have := h.1
+      rw [← List.zipIdx_map_fst 0 H] at this
+      exact List.pairwise_map.mp this
+    have hf := List.Pairwise.filter ((fun r : Row => r.chrom == c) ∘ tagRow) hz
+    apply List.Pairwise.imp_of_mem _ hf
+    intro p q hp hq hle
+    have hpc : p.1.chrom = c := by simpa [tagRow] using (List.mem_filter.mp hp).2
+    have hqc : q.1.chrom = c := by simpa [tagRow] using (List.mem_filter.mp hq).2
+    exact keyLe_same_chrom hle (hpc.trans hqc.symm)
+  · intro r hr
+    obtain ⟨p, hp, rfl⟩ := List.mem_map.mp hr
+    have hp' := (List.mem_filter.mp hp).1
+    have hm : p.1 ∈ H := by
+      have := List.mem_zipIdx_iff_getElem?.mp hp'
+      exact List.mem_of_getElem? this
+    exact h.2 p.1 hm
+
+theorem sliceValues_tag (H : List VRow) (f : VRow → Option Rat) (l : List (VRow × Nat))
+    (hl : ∀ p ∈ l, p ∈ H.zipIdx) :
+    sliceValues (H.map f) (l.map tagRow) = l.map (fun p => f p.1) := by
+  induction l with
+  | nil => simp [sliceValues]
+  | cons p t ih =>
+    have ih' := ih (fun q hq => hl q (List.mem_cons_of_mem _ hq))
+    have hp := List.mem_zipIdx_iff_getElem?.mp (hl p (by simp))
+    unfold sliceValues at ih' ⊢
+    rw [List.map_cons, List.filterMap_cons, List.map_cons]
+    simp only [tagRow, Nat.toNat?_repr, List.getElem?_map, hp, Option.map_some]
+    rw [← ih']
+    simp only [List.getElem?_map]
+
+theorem zipIdx_filter_fst (H : List VRow) (Q : VRow → Bool) :
+    (H.zipIdx.filter (fun p => Q p.1)).map (fun p => p.1) = H.filter Q := by
+  have := @List.filter_map (VRow × Nat) VRow (fun p => p.1) Q H.zipIdx
+  rw [List.zipIdx_map_fst] at this
+  rw [this]
+  rfl
+
+/-- the values `into_ranges` collects for one range: those of the rows that overlap it -/
+theorem slice_of_segment (H : List VRow) (h : WFRows H) (f : VRow → Option Rat)
+    (g : String × Int × Int) (hg : 0 ≤ g.2.1) :
+    sliceValues (H.map f)
+      (idxSelect ((H.zipIdx.map tagRow).filter (fun r => r.chrom == (segRow g).chrom))
+        (some (segRow g).s) (some (segRow g).e) false) =
+      (H.filter (overlaps g)).map f := by
+  rw [idxSelect_exact _ (wf_tagged H h _) _ _ (by intro s hs; simp only [segRow, Option.some.injEq] at hs; omega),
+    selFilter_outer, List.filter_filter, List.filter_map]
+  rw [sliceValues_tag H f _ (fun p hp => (List.mem_filter.mp hp).1)]
+  have hQ : ((fun r : Row => (decide (r.e > (segRow g).s) && decide (r.s < (segRow g).e)) && (r.chrom == (segRow g).chrom)) ∘ tagRow) =
+      (fun p : VRow × Nat => overlaps g p.1) := by
+    funext p
+    simp only [Function.comp, tagRow, segRow, overlaps]
+    cases (p.1.chrom == g.1) with
+    | false => simp
+    | true => simp; rfl
+  rw [hQ]
+  have := zipIdx_filter_fst H (overlaps g)
+  rw [← this, List.map_map]
+  rfl
+
+/-- segments regrouped by chromosome, in order of first appearance -/
+def regroupSegs (segs : List (String × Int × Int)) : List (String × Int × Int) :=
+  ((segs.map (fun g => g.1)).eraseDups).flatMap (fun c => segs.filter (fun g => g.1 == c))
+
+theorem regroup_segRow (segs : List (String × Int × Int)) :
+    regroup (segs.map segRow) = (regroupSegs segs).map segRow := by
+  unfold regroup groupByChrom chromsInOrder regroupSegs
+  simp only [List.map_map, List.flatMap_map, List.map_flatMap]
+  have e : ((fun r : Row => r.chrom) ∘ segRow) = (fun g : String × Int × Int => g.1) := by
+    funext g; rfl
+  rw [e]
+  congr 1
+  funext c
+  rw [List.filter_map]
+  rfl
+
+theorem regroupSegs_length (segs : List (String × Int × Int)) :
+    (regroupSegs segs).length = segs.length := by
+  have h1 := iterSlices_length [] (segs.map segRow) .outer
+  rw [iterSlices_outer, List.length_map, regroup_segRow, List.length_map, List.length_map] at h1
+  exact h1
+
+/-- **`baf_by_ranges`**: for every range (handed out chromosome by chromosome) the summary of the
+    frequencies of the heterozygous rows that overlap it -/
+theorem bafByRanges_eq (tb : VTable) (segs : List (String × Int × Int)) (above : Option Bool) (boost : Bool)
+    (hwf : WFRows tb.rows) (hseg : ∀ g ∈ segs, 0 ≤ g.2.1) :
+    bafByRanges tb segs above boost =
+      (regroupSegs segs).map (fun g =>
+        series2value above (((heterozygous tb.rows).filter (overlaps g)).map (bafFreq tb.paired boost))) := by
+  have hH := hwf.heterozygous
+  have hmem : ∀ g ∈ regroupSegs segs, g ∈ segs := by
+    intro g hg
+    unfold regroupSegs at hg
+    obtain ⟨c, _, hc⟩ := List.mem_flatMap.mp hg
+    exact (List.mem_filter.mp hc).1
+  unfold bafByRanges
+  simp only []
+  split
+  · rename_i hemp
+    rw [List.map_map]
+    rcases (Bool.or_eq_true _ _).mp hemp with h1 | h1
+    · have hnil : heterozygous tb.rows = [] := by
+        simpa [List.zipIdx_eq_nil_iff] using h1
+      rw [hnil]
+      simp only [List.filter_nil, List.map_nil, series2value]
+      have e : ((fun _ => none : Row → Option Rat) ∘ segRow) = (fun _ => none) := rfl
+      rw [e, List.map_const', List.map_const', regroupSegs_length]
+    · have hnil : segs = [] := by simpa using h1
+      subst hnil
+      simp [regroupSegs]
+  · rw [iterSlices_outer, regroup_segRow, List.map_map, List.map_map]
+    apply List.map_congr_left
+    intro g hg
+    simp only [Function.comp]
+    rw [slice_of_segment _ hH _ g (hseg g (hmem g hg))]
+
+
+/-- each chromosome's ranges are adjacent (as in every table `tabio` reads): once the leading run
+    of a chromosome is over, that chromosome does not come back -/
+def ChromGrouped : List (String × Int × Int) → Prop
+  | [] => True
+  | g :: t => (∀ x ∈ t.dropWhile (fun y => y.1 == g.1), x.1 ≠ g.1) ∧ ChromGrouped t
+
+theorem ChromGrouped_dropWhile (p : String × Int × Int → Bool) (t : List (String × Int × Int))
+    (h : ChromGrouped t) : ChromGrouped (t.dropWhile p) := by
+  induction t with
+  | nil => simpa using h
+  | cons a t ih =>
+    rw [List.dropWhile_cons]
+    split
+    · exact ih h.2
+    · exact h
+
+theorem takeWhile_all {α} (p : α → Bool) (l : List α) : ∀ x ∈ l.takeWhile p, p x = true := by
+  induction l with
+  | nil => simp
+  | cons a t ih =>
+    intro x hx
+    rw [List.takeWhile_cons] at hx
+    split at hx
+    · rename_i hpa
+      rcases List.mem_cons.mp hx with rfl | h
+      · exact hpa
+      · exact ih x h
+    · simp at hx
+
+theorem regroupSegs_of_grouped (segs : List (String × Int × Int)) (h : ChromGrouped segs) :
+    regroupSegs segs = segs := by
+  generalize hn : segs.length = n
+  induction n using Nat.strong_induction_on generalizing segs with
+  | _ n ih =>
+    cases segs with
+    | nil => simp [regroupSegs]
+    | cons g t =>
+      obtain ⟨hdrop, ht⟩ := h
+      have hsplit : t = t.takeWhile (fun y => y.1 == g.1) ++ t.dropWhile (fun y => y.1 == g.1) :=
+        (List.takeWhile_append_dropWhile).symm
+      generalize ht1 : t.takeWhile (fun y => y.1 == g.1) = t1 at hsplit
+      generalize ht2 : t.dropWhile (fun y => y.1 == g.1) = t2 at hsplit hdrop
+      have h1 : ∀ x ∈ t1, x.1 = g.1 := by
+        intro x hx
+        rw [← ht1] at hx
+        simpa using takeWhile_all _ t x hx
+      have hg2 : ChromGrouped t2 := by
+        rw [← ht2]; exact ChromGrouped_dropWhile _ t ht
+      have hlen : t2.length < n := by
+        rw [← hn, hsplit]
+        simp only [List.length_cons, List.length_append]
+        omega
+      have ih2 := ih t2.length hlen t2 hg2 rfl
+      have f1 : t1.filter (fun x => x.1 == g.1) = t1 :=
+        List.filter_eq_self.mpr (fun x hx => by simp [h1 x hx])
+      have f2 : t2.filter (fun x => x.1 == g.1) = [] :=
+        List.filter_eq_nil_iff.mpr (fun x hx hc => hdrop x hx (by simpa using hc))
+      have k1 : (t1.map (fun x => x.1)).filter (fun c => c != g.1) = [] := by
+        apply List.filter_eq_nil_iff.mpr
+        intro c hc
+        obtain ⟨x, hx, rfl⟩ := List.mem_map.mp hc
+        simp [h1 x hx]
+      have k2 : (t2.map (fun x => x.1)).filter (fun c => c != g.1) = t2.map (fun x => x.1) := by
+        apply List.filter_eq_self.mpr
+        intro c hc
+        obtain ⟨x, hx, rfl⟩ := List.mem_map.mp hc
+        simpa using hdrop x hx
+      unfold regroupSegs at ih2 ⊢
+      rw [List.map_cons, List.eraseDups_cons, List.flatMap_cons]
+      have hfirst : (g :: t).filter (fun x => x.1 == g.1) = g :: t1 := by
+        rw [hsplit]
+        simp [f1, f2]
+      have hkeys : (t.map (fun x => x.1)).filter (fun c => !c == g.1) = t2.map (fun x => x.1) := by
+        have e : (fun c : String => !c == g.1) = (fun c => c != g.1) := rfl
+        rw [e, hsplit, List.map_append, List.filter_append, k1, k2, List.nil_append]
+      rw [hfirst, hkeys]
+      have hrest : ((t2.map (fun x => x.1)).eraseDups).flatMap (fun c => (g :: t).filter (fun x => x.1 == c)) =
+          ((t2.map (fun x => x.1)).eraseDups).flatMap (fun c => t2.filter (fun x => x.1 == c)) := by
+        apply List.flatMap_congr
+        intro c hc
+        have hc' := List.mem_eraseDups.mp hc
+        obtain ⟨x, hx, rfl⟩ := List.mem_map.mp hc'
+        have hne : x.1 ≠ g.1 := hdrop x hx
+        have hg : (g.1 == x.1) = false := by simpa using (Ne.symm hne)
+        have ft1 : t1.filter (fun y => y.1 == x.1) = [] := by
+          apply List.filter_eq_nil_iff.mpr
+          intro y hy hc2
+          apply hne
+          rw [← h1 y hy]
+          exact (by simpa using hc2 : y.1 = x.1).symm
+        rw [List.filter_cons, hg, hsplit, List.filter_append, ft1]
+        simp
+      rw [hrest, ih2, hsplit]
+      simp
+
+
+/-! ## missing BAF -/
+
+theorem insertQ_length (x : Rat) (l : List Rat) : (insertQ x l).length = l.length + 1 := by
+  induction l with
+  | nil => rfl
+  | cons y ys ih =>
+    unfold insertQ
+    split
+    · rfl
+    · simp [ih]
+
+theorem sortQ_length (l : List Rat) : (sortQ l).length = l.length := by
+  induction l with
+  | nil => rfl
+  | cons x xs ih => simp [sortQ, insertQ_length, ih]
+
+theorem median_eq_none (l : List Rat) : median l = none ↔ l = [] := by
+  constructor
+  · intro h
+    by_contra hne
+    have hpos : 0 < (sortQ l).length := by
+      rw [sortQ_length]; exact List.length_pos_iff.mpr hne
+    unfold median at h
+    simp only [] at h
+    have h0 : ¬ (sortQ l).length = 0 := by omega
+    rw [if_neg h0] at h
+    split at h
+    · have hlt : (sortQ l).length / 2 < (sortQ l).length := by omega
+      rw [List.getElem?_eq_getElem hlt] at h
+      exact absurd h (by simp)
+    · have hlt : (sortQ l).length / 2 < (sortQ l).length := by omega
+      have hlt2 : (sortQ l).length / 2 - 1 < (sortQ l).length := by omega
+      rw [List.getElem?_eq_getElem hlt, List.getElem?_eq_getElem hlt2] at h
+      exact absurd h (by simp)
+  · intro h
+    subst h
+    rfl
+
+/-- the BAF is missing exactly where no (finite) heterozygous frequency lies inside the range -/
+theorem summarize_eq_none (a : Option Bool) (vals : List (Option Rat)) :
+    summarize a vals = none ↔ ∀ v ∈ vals, v = none := by
+  unfold summarize nanmedian mirroredBaf
+  rw [median_eq_none, List.filterMap_eq_nil_iff]
+  constructor
+  · intro h v hv
+    have := h (v.map (mirrorOne (mirrorAbove vals a))) (List.mem_map.mpr ⟨v, hv, rfl⟩)
+    cases v with
+    | none => rfl
+    | some x => simp at this
+  · intro h w hw
+    obtain ⟨v, hv, rfl⟩ := List.mem_map.mp hw
+    rw [h v hv]
+    rfl
+
+/-! ## the whole reading step on biallelic files -/
+
+theorem readVcf_biallelic (samples : List String) (tags : List PedTag) (recs : List Rec) (o : ReadOpts)
+    (sid : String) (nid : Option String)
+    (hc : chooseSamples samples tags o.sid o.nid = .ok (sid, nid))
+    (hr : o.skipReject = false) (hb : ∀ r ∈ recs, Biallelic r) :
+    ∃ tb, readVcf samples tags recs o = .ok tb ∧
+      tb.rows = sortV (somaticFilter o.skipSomatic (depthFilter o.minDepth
+        (recs.map (recRow (samples.idxOf sid) ((truthy nid).map (fun n => samples.idxOf n)))))) := by
+  refine ⟨_, readVcf_eq samples tags recs o sid nid hc, ?_⟩
+  simp only [hr]
+  rw [parseRecords_biallelic _ _ recs hb]
+
+theorem mem_depthFilter_sub (m : Option Int) (rows : List VRow) (r : VRow) (h : r ∈ depthFilter m rows) :
+    r ∈ rows := by
+  unfold depthFilter at h
+  split at h
+  · exact h
+  · split at h
+    · exact h
+    · split at h
+      · exact (List.mem_filter.mp h).1
+      · exact h
+
+end CnvVerif.Vcf
